@@ -653,8 +653,9 @@ def insert_rules(ctx, report, rule, facts, config):
                 continue
             if c.name == "insert" and "VacantEntry" in c.path:
                 n += 1
-                ok = b.qname == A.ENTRY + "::or_insert_with" and _stores_ok(ctx, facts, b, "vacant")
-                report.ob(rule, "stores/%s" % b.qname, ok, "vacant entry of Entry<T> receives AtomicRefCell::new(Box::<T>::new(f()))" if ok else "a vacant entry of the resource table is filled in %s with a value of another type" % b.qname, site=b.loc(bb), config=config)
+                rb = facts.bodies.get(b.root_key, b) if b.is_closure and b.root_key else b
+                ok = rb.self_head == A.ENTRY and rb.container == "inherent" and _stores_ok(ctx, facts, rb, "vacant")
+                report.ob(rule, "stores/%s" % b.qname, ok, "vacant entry of Entry<T> receives AtomicRefCell::new(Box::<T>::new(the value given))" if ok else "a vacant entry of the resource table is filled in %s with a value of another type" % b.qname, site=b.loc(bb), config=config)
                 continue
             n += 1
             args = bt.call_args(bb)
@@ -666,8 +667,9 @@ def insert_rules(ctx, report, rule, facts, config):
                 ok = b.qname == A.WORLD + "::entry" and _stores_ok(ctx, facts, b, "entry")
                 report.ob(rule, "stores/%s" % b.qname, ok, "Entry<R> wraps resources.entry(ResourceId::new::<R>())" if ok else "World::entry does not key the entry by its own type", site=b.loc(bb), config=config)
             elif c.name in ("or_insert_with", "or_insert"):
-                ok = b.qname == A.ENTRY + "::or_insert_with" and _stores_ok(ctx, facts, b, "vacant")
-                report.ob(rule, "stores/%s" % b.qname, ok, "vacant entry of Entry<T> receives AtomicRefCell::new(Box::<T>::new(f()))" if ok else "Entry::or_insert_with stores a value of another type", site=b.loc(bb), config=config)
+                rb = facts.bodies.get(b.root_key, b) if b.is_closure and b.root_key else b
+                ok = rb.self_head == A.ENTRY and rb.container == "inherent" and _stores_ok(ctx, facts, rb, "vacant")
+                report.ob(rule, "stores/%s" % b.qname, ok, "vacant entry of Entry<T> receives AtomicRefCell::new(Box::<T>::new(the value given))" if ok else "%s stores a value of another type" % b.qname, site=b.loc(bb), config=config)
             else:
                 report.ob(rule, "stores/%s/%s" % (b.qname, c.name), False, "unaudited insertion into the resource table through `%s`" % c.name, site=b.loc(bb), config=config)
     report.floor(rule, "insertions into the resource table", n, 3, config=config)
@@ -859,7 +861,8 @@ def _stores_ok(ctx, facts, b, what):
                     src = Q.strip(ev, x[3][0])
                     if not (src == ("field", ("variant", ("field", ("param", 1), "inner", A.ENTRY), "Vacant"), "0", "std::collections::hash_map::Entry")):
                         return False
-                    if not _boxed_as(ev, x[3][1], "T", lambda v: Q.callee_of(ev, v) is not None and Q.callee_of(ev, v).name in ("call_once", "<indirect>") and ("param", 2) in (v[2][:1] or ())):
+                    if not _boxed_as(ev, x[3][1], _last_targ(b.self_ty), lambda v: (Q.callee_of(ev, v) is not None and Q.callee_of(ev, v).name in ("call_once", "<indirect>") and ("param", 2) in (v[2][:1] or ()))
+                                     or (v[0] == "param" and 1 < v[1] <= b.arg_count and b.locals[v[1]]["ty"] == _last_targ(b.self_ty))):
                         return False
                     n += 1
             return n >= 1
@@ -868,64 +871,169 @@ def _stores_ok(ctx, facts, b, what):
     return False
 
 
-def _typed_lookup(prog, facts, body, st):
-    """A guard built outside the audited functions is still fine if it is visibly a typed lookup:
-    Guard<X> whose cell comes from resources.get(&ResourceId::new::<X>()) in the same function
-    (or an id asserted for X there)."""
-    rv = st["rv"]
-    targs = [a["s"] for a in rv.get("args", []) if a["k"] == "ty"]
-    if len(targs) != 1:
+CELL_VIEWS = frozenset(["map", "borrow", "borrow_mut", "try_borrow", "try_borrow_mut", "deref", "deref_mut", "as_ref", "as_mut", "unwrap", "expect",
+                        "unwrap_or_else", "clone", "filter_map", "map_split", "unwrap_unchecked", "into_mut", "get", "get_mut"])
+
+
+def _last_targ(ty):
+    """`Path<'a, X>` -> 'X'."""
+    if not ty or "<" not in ty:
         return None
-    x = targs[0]
-    fn = body
-    while fn.is_closure and fn.parent_key in facts.bodies:
-        fn = facts.bodies[fn.parent_key]
-    bt = prog.bt(fn)
-    keys = []
-    for bb, t in fn.normal_calls():
-        c = Callee(t["func"])
-        if c.name == "get" and "HashMap" in c.path:
-            a = bt.call_args(bb)
-            f_, i_, base = S.table_access(fn, a[0])
-            if S.crate_fields(f_)[-1:] == [(A.WORLD, "resources")]:
-                keys.append(a[1])
-    if len(keys) != 1:
-        return None
-    k = keys[0]
-    if k[0] == "call" and bt.callee(k[1]).name == "new" and bt.callee(k[1]).self_head == A.RESID and _type_args(bt.callee(k[1])) == [x]:
-        return "typed lookup: resources.get(&ResourceId::new::<%s>()) in %s" % (x, fn.qname)
-    if k[0] == "param":
-        ast = [bb for bb, t in fn.normal_calls() if Callee(t["func"]).name == "assert_same_type_id" and _type_args(Callee(t["func"])) == [x]
-               and bt.call_args(bb)[0] == k]
-        if ast:
-            return "lookup under an id asserted for %s in %s" % (x, fn.qname)
-    return None
+    inner = ty[ty.index("<") + 1:ty.rindex(">")]
+    depth = 0
+    cur = ""
+    parts = []
+    for ch in inner:
+        if ch == "<":
+            depth += 1
+        elif ch == ">":
+            depth -= 1
+        if ch == "," and depth == 0:
+            parts.append(cur.strip())
+            cur = ""
+        else:
+            cur += ch
+    parts.append(cur.strip())
+    return parts[-1] if parts else None
+
+
+def _guard_source(ev, fn, e, g, x, ast_key):
+    """Where the cell behind guard aggregate `g` (a Fetch<x> / FetchMut<x>) comes from on way `e` of function `fn`:
+    ('ok', why) | ('param', i) | ('bad', why)."""
+    from . import semq as Q
+    vals = dict(zip(g[4], g[3]))
+    t = vals.get("inner")
+    if t is None:
+        return ("bad", "the guard has no `inner` field")
+    for _ in range(64):
+        while isinstance(t, tuple) and t and t[0] == "cast":
+            t = t[2]
+        if not (isinstance(t, tuple) and t):
+            return ("bad", "unknown cell")
+        k = t[0]
+        if k == "param":
+            return ("param", t[1])
+        if k == "field":
+            if t[1][0] == "variant" or t[3] in (None, "tuple") or not str(t[3]).startswith("shred::"):
+                t = t[1]
+                continue
+            if t[3] in (A.FETCH, A.FETCHMUT) and t[2] == "inner" and t[1] == ("param", 1) and fn.self_head == t[3]:
+                return ("ok", "the cell of another %s<%s>" % (t[3].rsplit("::", 1)[1], x)) if _last_targ(fn.self_ty) == x else ("bad", "the guard's type differs from that of the guard it is copied from")
+            if t[3] == A.ENTRY and t[2] == "inner" and t[1] == ("param", 1) and fn.self_head == A.ENTRY:
+                return ("ok", "the slot of an Entry<%s>" % x) if _last_targ(fn.self_ty) == x else ("bad", "the guard's type differs from the entry's")
+            return ("bad", "the cell is read from %s.%s" % (t[3].rsplit("::", 1)[1], t[2]))
+        if k in ("variant", "proj"):
+            t = t[1]
+            continue
+        if k == "index":
+            t = t[1]
+            continue
+        if k == "call":
+            c = ev.callee(t[1])
+            if c is None:
+                return ("bad", "unknown call")
+            if c.name in ("get", "get_mut") and not c.local and len(t[2]) == 2 and _table_recv(ev, t[2][0]):
+                key = Q.strip(ev, t[2][1])
+                if Q.is_call(ev, key, "new") and Q.callee_of(ev, key).self_head == A.RESID:
+                    return ("ok", "lookup keyed by ResourceId::new::<%s>()" % x) if ev.targs(key) == [x] else ("bad", "the lookup is keyed by ResourceId::new::<%s>()" % (ev.targs(key),))
+                for y in _deep_all(e.path.events):
+                    if y[0] == "call" and y[2].key == ast_key and Q.strip(ev, y[3][0]) == key and (ev.targs(y[4]) or [None])[:1] == [x]:
+                        return ("ok", "lookup under an id asserted for %s (C09.ASSERT)" % x)
+                return ("bad", "the lookup key is neither ResourceId::new::<%s>() nor asserted for %s" % (x, x))
+            if c.local:
+                return ("bad", "the cell comes out of %s" % c.name)
+            if c.name in CELL_VIEWS and t[2]:
+                t = t[2][0]
+                continue
+            if c.name == "insert" and t[2]:
+                # VacantEntry::insert(slot, value) hands back the cell it stored
+                t = t[2][0]
+                continue
+            return ("bad", "the cell comes out of %s" % c.name)
+        return ("bad", "the cell is %s" % (t[:2],))
+    return ("bad", "too deep")
+
+
+def guard_built(ctx, report, rule, facts, config):
+    """Every Fetch<X> / FetchMut<X> that is built wraps a cell that is visibly the slot of type X: found under
+    ResourceId::new::<X>() or an id asserted for X, the slot of an Entry<X>, or the cell of another guard of X.
+    A private helper that builds the guard from a cell it is given is decided in each of its callers."""
+    from . import semq as Q
+    from .terms import subterms
+    guards = (A.FETCH, A.FETCHMUT)
+    ast = facts.one(A.RESID + "::assert_same_type_id")
+
+    def root(b):
+        return facts.bodies.get(b.root_key, b) if b.is_closure and b.root_key else b
+
+    builders = {}
+    n_static = dict((g, 0) for g in guards)
+    for b in sorted(facts.bodies.values(), key=lambda b: b.key):
+        for blk in b.blocks:
+            for st in blk["stmts"]:
+                if st["k"] == "assign" and st["rv"]["k"] == "agg" and st["rv"].get("adt") in guards:
+                    n_static[st["rv"]["adt"]] += 1
+                    builders.setdefault(root(b).key, root(b))
+    callers = facts.callers()
+    decided = {}     # fn key -> (status, detail)
+    n_ok = dict((g, 0) for g in guards)
+    work = sorted(builders.values(), key=lambda b: b.key)
+    seen = set()
+    while work:
+        fn = work.pop(0)
+        if fn.key in seen:
+            continue
+        seen.add(fn.key)
+        report.touched(fn, config)
+        ev, ends = Q.sem(ctx, facts, fn, opaque=[ast.key, A.RESID + "::new"] + _downcasts(facts))
+        found = []
+        for e in ends:
+            terms_ = [e.ret] if e.ret is not None else []
+            for y in _deep_all(e.path.events):
+                if y[0] == "call":
+                    terms_.extend(y[3])
+                elif y[0] == "store":
+                    terms_.append(y[3])
+                elif y[0] == "yield":
+                    terms_.append(y[2])
+            gs = []
+            for t in terms_:
+                for st in subterms(t):
+                    if isinstance(st, tuple) and len(st) > 4 and st[0] == "agg" and st[1] == "adt" and st[2].rsplit("::", 1)[0] in guards and st not in gs:
+                        gs.append(st)
+            for g in gs:
+                xs = ev.agg_targs.get(g, set())
+                if len(xs) != 1 or len(list(xs)[0]) != 1:
+                    found.append((g[2].rsplit("::", 1)[0], ("bad", "the guard's type cannot be read off its construction")))
+                    continue
+                found.append((g[2].rsplit("::", 1)[0], _guard_source(ev, fn, e, g, list(xs)[0][0], ast.key)))
+        bad = sorted(set("%s: %s" % (a.rsplit("::", 1)[1], r[1]) for a, r in found if r[0] == "bad"))
+        needs = sorted(set(r[1] for a, r in found if r[0] == "param"))
+        oks = sorted(set(r[1] for a, r in found if r[0] == "ok"))
+        if needs and not bad:
+            cs = sorted(set(root(cb).key for cb, bb in callers.get(fn.key, [])))
+            pub = bool(fn.raw.get("pub"))
+            if pub or not cs:
+                bad.append("the guard is built around a cell handed in by the caller, and %s" % ("the function is public" if pub else "no caller is in sight"))
+            else:
+                for k in cs:
+                    work.append(facts.bodies[k])
+        for a in guards:
+            if any(x == a and r[0] == "ok" for x, r in found) and not bad:
+                n_ok[a] += 1
+        if not found and fn.key in builders:
+            bad.append("the construction is on no way through the function")
+        report.ob(rule, "guard-built/%s" % fn.qname, not bad, "; ".join(bad) if bad else
+                  ("; ".join(oks) if oks else "builds the guard around the cell it is given: decided in its callers"), site=fn.loc(), config=config)
+    report.floor(rule, "Fetch constructions decided in context", n_ok[A.FETCH], 3, config=config)
+    report.floor(rule, "FetchMut constructions decided in context", n_ok[A.FETCHMUT], 3, config=config)
+    report.floor(rule, "guard construction sites", n_static[A.FETCH] + n_static[A.FETCHMUT], 2, config=config)
 
 
 def guard_rules(ctx, report, rule, facts, config):
     """C09.GUARD / DOWNCAST / ONCE."""
     prog = ctx.program(facts)
-    # keyed by the enclosing function (a guard built in a closure of an audited function is the same site)
-    allowed = {
-        A.FETCH: {A.WORLD + "::try_fetch": "lookup keyed by ResourceId::new::<T>()", A.WORLD + "::try_fetch_by_id": "id asserted for T (C09.ASSERT)",
-                  "<" + A.FETCH + "<T> as std::clone::Clone>::clone": "clone of a Fetch<T>"},
-        A.FETCHMUT: {A.WORLD + "::try_fetch_mut": "lookup keyed by ResourceId::new::<T>()", A.WORLD + "::try_fetch_mut_by_id": "id asserted for T (C09.ASSERT)",
-                     A.ENTRY + "::or_insert_with": "Entry<T>"},
-    }
-    n = {A.FETCH: 0, A.FETCHMUT: 0}
-    for b in sorted(facts.bodies.values(), key=lambda b: b.key):
-        for bi, blk in enumerate(b.blocks):
-            for st in blk["stmts"]:
-                if st["k"] == "assign" and st["rv"]["k"] == "agg" and st["rv"].get("adt") in allowed:
-                    adt = st["rv"]["adt"]
-                    n[adt] += 1
-                    why = allowed[adt].get(b.qname.split("::{closure", 1)[0])
-                    if why is None:
-                        why = _typed_lookup(prog, facts, b, st)
-                    report.ob(rule, "guard-built/%s/%s" % (adt.rsplit("::", 1)[1], b.qname), why is not None,
-                              why or "%s is constructed in %s, outside the audited typed lookups" % (adt.rsplit("::", 1)[1], b.qname), site=b.loc(bi), config=config)
-    report.floor(rule, "Fetch constructions", n[A.FETCH], 3, config=config)
-    report.floor(rule, "FetchMut constructions", n[A.FETCHMUT], 3, config=config)
+    guard_built(ctx, report, rule, facts, config)
     # unchecked downcasts
     want = {
         "<" + A.FETCH + "<T> as std::ops::Deref>::deref": "downcast_ref_unchecked",
